@@ -173,6 +173,22 @@ impl Check for HistCheck {
         let ext = if rng.chance(1, 3) { ".md" } else { "" };
         match self.prop {
             "C04" => self.run_c04(&h, ext, &mut rep),
+            _ if case % 5 == 4 => {
+                // hostile histories: every version is a soup of Markdown fragments (empty items, lists that hold only
+                // empty lists, stray delimiters ...). The forest invariants hold for ANY text; only the comparison with the
+                // independent scanner is dropped (the two parsers may disagree on such input), and a panic is C03's business.
+                let keys = ["n1", "n2", "d1/n3"];
+                let mut initial = BTreeMap::new();
+                for k in keys.iter().take(rng.range(1, 3)) {
+                    initial.insert(k.to_string(), crate::checks::crash03::soup(&mut rng, 40));
+                }
+                let steps = (0..rng.range(1, 6))
+                    .map(|_| hist::Step { key: rng.pick(&keys).to_string(), text: crate::checks::crash03::soup(&mut rng, 40), what: "soup".into(), insert: rng.chance(1, 4) })
+                    .collect();
+                let hh = History { initial, steps };
+                rep.count("hostile_histories", 1);
+                self.run_c20_mode(&hh, ext, &mut rep, true)
+            }
             _ => self.run_c20(&h, ext, &mut rep),
         }
         if self.prop == "C04" && case % 10 == 0 {
@@ -343,6 +359,10 @@ impl HistCheck {
     }
 
     fn run_c20(&self, h: &History, ext: &str, rep: &mut CaseReport) {
+        self.run_c20_mode(h, ext, rep, false)
+    }
+
+    fn run_c20_mode(&self, h: &History, ext: &str, rep: &mut CaseReport, hostile: bool) {
         let opts = MarkdownOptions {
             refs_extension: ext.to_string(),
         };
@@ -366,7 +386,7 @@ impl HistCheck {
                     viol.push((c, format!("{}: {}", what, d)));
                 }
                 // DFS order == source block order
-                for (k, t) in texts {
+                for (k, t) in texts.iter().filter(|_| !hostile) {
                     let scan = mdscan::scan(t);
                     let expect: Vec<String> = scan
                         .atoms
@@ -447,9 +467,10 @@ impl HistCheck {
                 rep.count("tombstones_seen", stats.tombstones as u64);
                 rep.count("navigation_checks", stats.nav_checked as u64);
                 for (c, d) in viol.into_iter().chain(hook_viol.into_iter()).take(4) {
-                    rep.violate(&c, "clean", d, replay.clone());
+                    rep.violate(&c, if hostile { "hostile" } else { "clean" }, d, replay.clone());
                 }
             }
+            Err(_) if hostile => rep.count("hostile_histories_that_panicked", 1),
             Err(p) => rep.violate("panic", &format!("{}@clean", p.signature()), p.message.clone(), replay.clone()),
         }
     }
